@@ -59,6 +59,7 @@ type c11Rep struct {
 	Diags               []c11Diag
 	LFirst, LLast, Sev  int
 	AnchorBefore        bool
+	RFirst, RLast       int // Report.Rule.Lines (sort keys since fix bc86063)
 }
 
 type c11Entry struct {
@@ -126,7 +127,7 @@ func c11Describe(stream []reporter.Report) []c11Rep {
 		d := c11Rep{Path: r.Path.Name, Target: r.Path.SymlinkTarget, Owner: r.Owner, Rule: cls, Name: r.Rule.Name(),
 			Reporter: r.Problem.Reporter, Summary: r.Problem.Summary, Details: r.Problem.Details,
 			LFirst: r.Problem.Lines.First, LLast: r.Problem.Lines.Last, Sev: int(r.Problem.Severity),
-			AnchorBefore: r.Problem.Anchor == checks.AnchorBefore}
+			AnchorBefore: r.Problem.Anchor == checks.AnchorBefore, RFirst: r.Rule.Lines.First, RLast: r.Rule.Lines.Last}
 		for _, dg := range r.Problem.Diagnostics {
 			d.Diags = append(d.Diags, c11Diag{Msg: dg.Message, First: dg.FirstColumn, Last: dg.LastColumn, Extra: posID(dg.Pos)})
 		}
@@ -146,9 +147,9 @@ func c11CoqReport(d c11Rep) string {
 	for i, g := range d.Diags {
 		ds[i] = fmt.Sprintf("{| dg_msg := %s; dg_first := %s; dg_last := %s; dg_extra := %s |}", coqStr(g.Msg), coqZ(int64(g.First)), coqZ(int64(g.Last)), coqN(g.Extra))
 	}
-	return fmt.Sprintf("{| r_path := %s; r_target := %s; r_owner := %s; r_rule := %s; r_name := %s; r_reporter := %s; r_summary := %s; r_details := %s; r_diags := %s; r_lfirst := %s; r_llast := %s; r_sev := %s; r_anchor_before := %s |}",
+	return fmt.Sprintf("{| r_path := %s; r_target := %s; r_owner := %s; r_rule := %s; r_name := %s; r_reporter := %s; r_summary := %s; r_details := %s; r_diags := %s; r_lfirst := %s; r_llast := %s; r_sev := %s; r_anchor_before := %s; r_rfirst := %s; r_rlast := %s |}",
 		coqStr(d.Path), coqStr(d.Target), coqStr(d.Owner), coqN(d.Rule), coqStr(d.Name), coqStr(d.Reporter), coqStr(d.Summary), coqStr(d.Details),
-		coqList(ds), coqZ(int64(d.LFirst)), coqZ(int64(d.LLast)), coqZ(int64(d.Sev)), coqBool(d.AnchorBefore))
+		coqList(ds), coqZ(int64(d.LFirst)), coqZ(int64(d.LLast)), coqZ(int64(d.Sev)), coqBool(d.AnchorBefore), coqZ(int64(d.RFirst)), coqZ(int64(d.RLast)))
 }
 
 func coqNatList(xs []int) string {
@@ -351,6 +352,10 @@ func c11KeyEq(a, b c11Rep) bool {
 		if da[i].First != db[i].First || da[i].Last != db[i].Last || da[i].Msg != db[i].Msg || da[i].Extra != db[i].Extra {
 			return false
 		}
+	}
+	// since fix bc86063: Rule.Lines, Owner, SymlinkTarget -- read only when both reports have diagnostics
+	if len(da) > 0 && (a.RFirst != b.RFirst || a.RLast != b.RLast || a.Owner != b.Owner || a.Target != b.Target) {
+		return false
 	}
 	return true
 }
@@ -781,24 +786,16 @@ func c11MultiBlocks(r *rand.Rand) string {
 	return b.String()
 }
 
-// known finding C11-tie-across-rules: two reports tie on the whole sort key (all scalars, all diagnostics) and differ only in the
-// entry they belong to (Rule / Owner / SymlinkTarget): not isEqual, both kept, left in arrival order by the stable sort.
-// Reachable: a check that reports a problem located on group-level data once per rule of the group (rule/reject on group labels).
-const c11RuleTieFinding = "C11-tie-across-rules"
-
-func c11RuleTieClass(stream []reporter.Report, desc []c11Rep) bool {
-	for i := range desc {
-		for j := range desc {
-			if i == j || !c11KeyEq(desc[i], desc[j]) || reporter.VerifIsEqual(stream[i], stream[j]) {
-				continue
-			}
-			a, b := desc[i], desc[j]
-			if a.Rule != b.Rule || a.Owner != b.Owner || a.Target != b.Target {
-				return true
-			}
-		}
+// regression scenario for fix bc86063 (corpus/C11/group-label-reject): rule/reject on a GROUP-level label reports once per rule of
+// the group at the group label's line; the reports differ only in the rule they belong to
+func c11GroupLabelRejectScenario(nrules int) c11Scenario {
+	var b strings.Builder
+	b.WriteString("groups:\n- name: g\n  labels:\n    severity: gv0\n  rules:\n")
+	for i := 0; i < nrules; i++ {
+		fmt.Fprintf(&b, "  - alert: r%d\n    expr: up == 0\n", i)
 	}
-	return false
+	return c11Scenario{Files: map[string]string{"rules/0.yml": b.String()}, Kind: "group-label-reject-witness",
+		Config: "rule {\n  reject \"[a-z]+[0-9]\" {\n    label_values = true\n  }\n}\n"}
 }
 
 // c11CheckSettings: `check "<name>" { ... }` blocks with non-default values for the checks that have settings. The decoded
@@ -1245,7 +1242,7 @@ func runC11(args []string) int {
 		"rule {\n  label \"team\" {\n    required = true\n    value = \"b\"\n    severity = \"bug\"\n  }\n}\n"
 	sevTie.Kind = "severity-tie-witness"
 	scens := []c11Scenario{c11TieScenario(6), c11TieScenario(40), sevTie, c11PosTieScenario(1), c11PosTieScenario(12),
-		c11BulkScenario(r, bulkN, false), c11BulkScenario(r, bulkN, true), c11CIScenario(r, ciN), c11AggregateTwoScenario(1), c11AggregateTwoScenario(16)}
+		c11BulkScenario(r, bulkN, false), c11BulkScenario(r, bulkN, true), c11CIScenario(r, ciN), c11AggregateTwoScenario(1), c11AggregateTwoScenario(16), c11GroupLabelRejectScenario(2), c11GroupLabelRejectScenario(14)}
 	nfixed := len(scens)
 	for len(scens) < nscen {
 		if len(scens)%6 == 5 {
@@ -1265,7 +1262,7 @@ func runC11(args []string) int {
 		JSON    string `json:"json"`
 		Stderr  string `json:"stderr"`
 	}
-	runBinary := func(si int, dir string, sc c11Scenario, inProcessJSON *string, knownTie bool) {
+	runBinary := func(si int, dir string, sc c11Scenario, inProcessJSON *string) {
 		args := func(w int, jp string) []string {
 			if sc.BaseFiles != nil {
 				return []string{"--no-color", "--offline", "-c", ".pint.hcl", "--workers", fmt.Sprint(w), "ci", "--json", jp}
@@ -1307,11 +1304,7 @@ func runC11(args []string) int {
 			if bo.Exit != ref.Exit || bo.JSON != ref.JSON || bo.Stderr != ref.Stderr {
 				what := fmt.Sprintf("pint output differs between --workers 1 and --workers %d", w)
 				c := map[string]any{"scenario": sc, "run_a": ref, "run_b": bo}
-				if knownTie && bo.Exit == ref.Exit && bo.JSON == ref.JSON {
-					rep.failKnown(fmt.Sprintf("scen%d-w%d", si, w), what+" [console order of reports tying on the whole key that belong to different rules]", c, c11RuleTieFinding)
-				} else {
-					rep.fail(fmt.Sprintf("scen%d-w%d", si, w), what, c)
-				}
+				rep.fail(fmt.Sprintf("scen%d-w%d", si, w), what, c)
 				break
 			}
 		}
@@ -1355,7 +1348,7 @@ func runC11(args []string) int {
 		if sc.BaseFiles != nil { // pint ci: no in-process replica of the git finder; binary and race runs only
 			rep.count(fmt.Sprintf("%+v", sc), true)
 			rep.hist("kind=ci(binary only)")
-			runBinary(si, dir, sc, nil, false)
+			runBinary(si, dir, sc, nil)
 			continue
 		}
 		jobs, err := c11Jobs(dir)
@@ -1383,7 +1376,7 @@ func runC11(args []string) int {
 			rep.hist("real-reporter=" + d.Reporter)
 		}
 		_, h1, h2 := c11Hyps(stream, desc)
-		// J-loc (premise of C11_H2_from_job_invariants), measured: reports for the same file and line range come from
+		// J-loc, measured only (it is FALSE for problems located on group-level data, see corpus/C11/group-label-reject): reports for the same file and line range come from
 		// entries that agree on symlink target, owner and rule identity
 		jloc := true
 		for i := range desc {
@@ -1446,13 +1439,8 @@ func runC11(args []string) int {
 			} else if obs != first {
 				what := fmt.Sprintf("the result of the real check pipeline depends on the arrival order of reports (H1=%v H2=%v): workers=1 order vs an interleaving give different output", h1, h2)
 				c := map[string]any{"scenario": sc, "stream": desc, "order_a": firstOut, "order_b": o}
-				if h1 && !h2 && c11RuleTieClass(stream, desc) && o.JSONText == firstOut.JSONText {
-					rep.failKnown(fmt.Sprintf("scen%d", si), what+" [reports tying on the whole key that belong to different rules]", c, c11RuleTieFinding)
-					rep.hist("real:output-depends-on-arrival(known: tie across rules)")
-				} else {
-					rep.fail(fmt.Sprintf("scen%d", si), what, c)
-					rep.hist("real:output-depends-on-arrival")
-				}
+				rep.fail(fmt.Sprintf("scen%d", si), what, c)
+				rep.hist("real:output-depends-on-arrival")
 				outs = append(outs, o)
 				break
 			}
@@ -1468,7 +1456,7 @@ func runC11(args []string) int {
 		}
 		// C. the binary across worker counts
 		if si < nbin || heavy(sc) {
-			runBinary(si, dir, sc, &firstOut.JSONText, h1 && !h2 && c11RuleTieClass(stream, desc))
+			runBinary(si, dir, sc, &firstOut.JSONText)
 		}
 	}
 	must(os.Chdir(cwd))
